@@ -15,6 +15,9 @@ Line-protocol driver for the C17 models (model files + the generated option tabl
   M <k=v,…>/<k=v,…>/…                     → merged inline comments, keys sorted: `k=v,k=v`
   P <ini key=value,…>|<cli --flag[=v] …>|<keys>|<codes>   (global options: defaults ← [mypy] ← command line)
         → `k=v … dis={…} en={…}`
+  S <ini|toml> <p1+p2:k=v,…>/<p3:k=v,…>/… → the `per_module_options` table of that config file: `pat:k=v,…;pat:…`
+  L <0|1>,<0|1>,…                         → per section of a config file ([mypy] first): does it say `strict = True`;
+                                            answer `1` when the strict assignments reach the *global* options
   F                                       → obligations with the flags/options that violate them
   E                                       → the hand-written exemption lists of Model/ConfigTable.lean
 -/
@@ -169,6 +172,25 @@ def cmdF : String :=
     bad "list_options_typed" ((Gen.Options.attrs.filter (fun a => !listAttrTyped Gen.Options.iniKeys a)).map (fun a => str a.name)),
     bad "exemptions_live" (if exemptionsLiveB then [] else ["stale"])]
 
+def cmdS (arg : Str) : String :=
+  match splitC ' ' arg with
+  | which :: rest =>
+    let fs : List FileSection := (splitNE '/' ((" ".toList).intercalate rest)).map (fun x =>
+      match splitC ':' x with
+      | [ps, ch] => ((splitNE '+' ps).map parsePat, parseChanges ch)
+      | _ => ([], []))
+    let t := if which == "toml".toList then tomlSections fs else iniSections fs
+    ";".intercalate (t.map (fun kv => str kv.1.str ++ ":" ++ showChanges kv.2))
+  | _ => "bad-op"
+
+def cmdL (arg : Str) : String :=
+  let bits := (splitNE ',' arg).map (fun x => x == ['1'])
+  let g : Opts := { get := fun _ => .bool false, disabled := fun _ => false, enabled := fun _ => false, imiPerModule := false }
+  let assign : Changes := Gen.Options.strictFlags.map (fun d => (d.1, Val.bool d.2))
+  let o := strictApplied g assign bits
+  -- did the strict assignments reach the global object?
+  b2s (Gen.Options.strictFlags.any (fun d => o.get d.1 != g.get d.1))
+
 def cmdE : String :=
   let one (name : String) (xs : List Str) : String := s!"{name}:[" ++ ",".intercalate (xs.map str) ++ "]"
   " ".intercalate [
@@ -192,6 +214,8 @@ def step (line : String) : String :=
   | 'I' :: ' ' :: r => str (invertFlagName Gen.Options.flagPrefixPairs r)
   | 'M' :: ' ' :: r => cmdM r
   | 'P' :: ' ' :: r => cmdP r
+  | 'S' :: ' ' :: r => cmdS r
+  | 'L' :: ' ' :: r => cmdL r
   | ['F'] => cmdF
   | ['E'] => cmdE
   | _ => "bad-op"
